@@ -1,4 +1,5 @@
 import PugModel.Tpl.Compile
+import PugProofs.C01.EvalScalar
 import PugModel.Pug.Spec
 /-!
 # C04 — escaped output never lets data-supplied markup through
@@ -112,6 +113,30 @@ theorem C04_print_escaped (s : String) (st : St) :
     printVal (.S s) true st = .ok ((), { st with out := st.out ++ pugHtmlEscape s }) := by
   simp [printVal, bind, StateT.bind, getHeap, get, getThe, MonadStateOf.get, StateT.get, pure, Except.pure, Except.bind,
     StateT.pure, sprint, strFuel, objStr, ofOpt, emit, modify, modifyGet, MonadStateOf.modifyGet, StateT.modifyGet]
+
+/-! ## escaped code nodes over whole expressions (scalar fragment) -/
+
+theorem print_str_escaped (s : String) (st : St) :
+    printVal (.str s) true st = .ok ((), { st with out := st.out ++ pugHtmlEscape s }) := by
+  simp [printVal, bind, StateT.bind, getHeap, get, getThe, MonadStateOf.get, StateT.get, pure, Except.pure, Except.bind,
+    StateT.pure, sprint, ofOpt, emit, modify, modifyGet, MonadStateOf.modifyGet, StateT.modifyGet]
+
+open Pug.JS Pug.Props.C01S in
+/-- **C04 (every escaped code node whose expression yields a string).** For EVERY expression of the scalar fragment (any
+nesting: variables, concatenations, conditionals, `||` defaults, ...) whose JavaScript value is a string `s` - wherever the
+string comes from, data included - the escaped buffered-code node appends exactly `escape s` to the output, and nothing else
+of the state changes. With `C04_escape_safe` (no `<`, `>`, `"`, `'` survives) the value cannot contribute markup. -/
+theorem C04_code_escaped_scalar (ρ : SEnv) (e : SExpr) (s : String) (h : sEval ρ e = some (.str s)) (st : St)
+    (hag : Agree st ρ) (env : Tpl.Env) (fuel : Nat) (hf : 2 * e.depth + 1 < fuel) :
+    walk fuel env (.print (tr e) true) st = .ok ((), { st with out := st.out ++ pugHtmlEscape s }) := by
+  obtain ⟨f, rfl⟩ : ∃ f, fuel = f + 1 := ⟨fuel - 1, by omega⟩
+  obtain ⟨v, hv, rv⟩ := eval_scalar ρ e (.str s) h st hag f (by omega)
+  have hw : walk (f + 1) env (.print (tr e) true) st = printVal v true st := by
+    simp [walk, hv, bind, StateT.bind, Except.bind]
+  rw [hw]
+  cases rv with
+  | S s => exact C04_print_escaped s st
+  | str s => exact print_str_escaped s st
 
 /-! non-vacuity -/
 example : escapeWith htmlEscape "<b a=\"1\">&'".toList = "&lt;b a=&#34;1&#34;&gt;&amp;&#39;".toList := by decide
